@@ -539,6 +539,7 @@ type Clause struct {
 type Contract struct {
 	FuncRef string // as written, e.g. "(Keeper).Foo", "Median[uint64]"
 	File    string
+	Files   []string // every contract file contributing clauses (merged contracts)
 	Line    int
 	Clauses []Clause
 	Flags   map[string]string // no_panic, trusted, atomic_on_error, pure ...
